@@ -11,7 +11,7 @@
 From Coq Require Import List String Bool Permutation.
 From SCC Require Import Lang.FunSyn Model.Check Sem.FunTyping Sem.FunErase Proof.CheckWitness Proof.CheckAnn Proof.TypingReject Proof.CheckMono Proof.CheckProof.
 From SCC Require Import Proof.PrintInj Proof.CheckPoly Proof.CheckPolySound Proof.CheckPolyProg Proof.CheckPolyProgC Proof.CheckPolyProof.
-From SCC Require Import Sem.FunNames Sem.FunClosed Proof.CheckBuild Proof.CheckInst Proof.CheckArity.
+From SCC Require Import Sem.FunNames Sem.FunClosed Proof.CheckBuild Proof.CheckInst Proof.CheckArity Proof.CheckScope.
 Import ListNotations.
 
 (* Soundness, full statement: `forall p q, check p = COk q -> has_type p`.  False: an ill-formed
@@ -416,3 +416,51 @@ Example C15_arity_examples :
   /\ prog_names_ok p_arity_dtor = true /\ prog_names_ok p_arity_case = true.
 Proof. exact arity_examples. Qed.
 Print Assumptions C15_arity_examples.
+
+(* ---------- scopes (round 2, after the seeded change `scope leak between clauses`) ----------
+   Model side: the context in which the body of a case / new clause is checked is EXACTLY the context of the
+   case / new term followed by that clause's own binders - no sibling's binder, whatever the declaration order of
+   the xtors.  [clause_checked_in ctx pcls c']: c' stems from a clause of pcls with the same xtor and binder names,
+   its annotated context binds exactly these names, and its body is the result of that clause's checker run in
+   `ctx ++ clause_ctx c'`.  A model that followed a checker keeping ONE growing context for all clauses could not
+   prove these (nor soundness). *)
+Theorem C15_clause_context_exact : forall is_case sfx T xtors pcls st ctx cls' leftover st',
+  check_clauses is_case sfx T xtors pcls st ctx = COk (cls', leftover, st') ->
+  Forall (clause_checked_in ctx pcls) cls'.
+Proof. exact check_clauses_context_exact. Qed.
+Print Assumptions C15_clause_context_exact.
+Theorem C15_case_clause_context_exact : forall eager s targs cls r st ctx T s' targs' cls' r' st',
+  check_term_gen eager (FCase s targs cls r) st ctx T = COk (FCase s' targs' cls' r', st') ->
+  Forall (body_checked_in eager ctx cls) cls'.
+Proof. exact case_clause_context_exact. Qed.
+Print Assumptions C15_case_clause_context_exact.
+Theorem C15_new_clause_context_exact : forall eager cls r st ctx T cls' r' st',
+  check_term_gen eager (FNew cls r) st ctx T = COk (FNew cls' r', st') ->
+  Forall (body_checked_in eager ctx cls) cls'.
+Proof. exact new_clause_context_exact. Qed.
+Print Assumptions C15_new_clause_context_exact.
+(* A name used where it is NOT in scope - [occ_sc s sc t]: s occurs in t and sc are exactly the names bound on the
+   path from the root of t to s (a let variable only in its body, a label only in its body, a clause's binders only
+   in that clause's body, nothing in a scrutinee or bound term); [use_of x s]: s is the variable x or `goto x` - is
+   rejected by the rules for all programs and sites, whatever ELSE in the definition binds the name (a sibling
+   clause, an enclosing term's other branch, ...): the mutation classes `scope-leak` and `scope-esc` ... *)
+Theorem C15_reject_scope_leak : forall p d x s sc, In d (fdefs (fpdecls p)) ->
+  use_of x s -> occ_sc s sc (fdbody d) -> ~ In x sc -> ~ In x (map fbvar (fdctx d)) ->
+  has_type_b p = false.
+Proof. exact reject_scope_leak. Qed.
+Print Assumptions C15_reject_scope_leak.
+(* ... and by the checker *)
+Theorem C15_check_rejects_scope_leak : forall p d x s sc, prog_names_ok p = true -> In d (fdefs (fpdecls p)) ->
+  use_of x s -> occ_sc s sc (fdbody d) -> ~ In x sc -> ~ In x (map fbvar (fdctx d)) ->
+  exists e, check p = CErr e.
+Proof. exact check_rejects_scope_leak. Qed.
+Print Assumptions C15_check_rejects_scope_leak.
+(* the two effects of a scope leak between clauses, as witnesses: a sibling's binder is unbound (rejected), and the
+   OUTER variable is what a sibling sees when another clause re-binds its name at another type (accepted) *)
+Example C15_scope_witnesses :
+  (check p_sibling_binder = CErr EUnboundVariable /\ has_type_b p_sibling_binder = false)
+  /\ (exists d, In d (fdefs (fpdecls p_sibling_binder))
+        /\ occ_sc (FVar "a" None None) ["b"%string] (fdbody d) /\ ~ In "a"%string ["b"%string] /\ ~ In "a"%string (map fbvar (fdctx d)))
+  /\ (has_type_b p_outer_in_sibling = true /\ exists q, check p_outer_in_sibling = COk q).
+Proof. exact (conj sibling_binder_rejected (conj sibling_binder_is_scope_leak outer_in_sibling_accepted)). Qed.
+Print Assumptions C15_scope_witnesses.
